@@ -166,6 +166,7 @@ func checkC05(c *Ctx, r *Result, tier string) {
 	c05ConcatFresh(c, r)
 	c05LiteralFresh(c, r)
 	c05Constructor(c, r)
+	c05NullIsAValue(c, r)
 }
 
 // keyRepr classifies the representation of a map key expression.
